@@ -476,6 +476,174 @@ func checkDurable(c *vlib.Ctx) {
 	}
 }
 
+// ---------------------------------------------------------------------------------------------
+// C38: checkpoints open to a consistent, complete state.
+
+func runCheckpoint(c *vlib.Ctx, cfg hx.Config, hist []hx.Op, verbose bool) {
+	mem := vfs.NewMem()
+	x, err := hx.Open(mem, "db", cfg)
+	if err != nil {
+		c.Violation("open-error", err.Error(), durCase{cfg, hist})
+		return
+	}
+	defer x.D.Close()
+	m := hx.NewModel(bounds...)
+	prefix := []string{m.String()}
+	models := []*hx.Model{m.Clone()}
+	lastSynced := 0
+	restrict := func(st *hx.Model) string {
+		r := hx.NewModel(bounds...)
+		for _, kv := range st.Points() {
+			if hx.Cmp(kv.K, "a") >= 0 && hx.Cmp(kv.K, "b") < 0 {
+				r.Pts[kv.K] = kv.V
+			}
+		}
+		return hx.PointsString(r.Points())
+	}
+	for i, op := range hist {
+		if !m.Legal(op) {
+			c.Outcome("skipped-outside-contract")
+			return
+		}
+		if err := x.Apply(i+1, op); err != nil {
+			c.Violation("op-error", fmt.Sprintf("hist=[%s] op %d: %v", hx.HistString(hist), i+1, err), durCase{cfg, hist})
+			return
+		}
+		m.Apply(op, fmt.Sprintf("v%d", i+1))
+		prefix = append(prefix, m.String())
+		models = append(models, m.Clone())
+		switch {
+		case op.K == "flush":
+			lastSynced = i + 1
+		case op.Sync:
+			lastSynced = i + 1 // the WAL is one sequential log: a synced commit makes all earlier ones durable too
+		}
+		c.Trans(1)
+		for vi, variant := range []string{"default", "flushed-wal", "restricted-flushed-wal", "restricted"} {
+			dir := fmt.Sprintf("ck-%d-%d", i, vi)
+			var opts []pebble.CheckpointOption
+			switch variant {
+			case "flushed-wal":
+				opts = append(opts, pebble.WithFlushedWAL())
+			case "restricted-flushed-wal":
+				opts = append(opts, pebble.WithFlushedWAL(), pebble.WithRestrictToSpans([]pebble.CheckpointSpan{{Start: []byte("a"), End: []byte("b")}}))
+			case "restricted":
+				opts = append(opts, pebble.WithRestrictToSpans([]pebble.CheckpointSpan{{Start: []byte("a"), End: []byte("b")}}))
+			}
+			if err := x.D.Checkpoint(dir, opts...); err != nil {
+				c.Violation("checkpoint-error", fmt.Sprintf("cfg=%s hist=[%s] after op %d %s: %v", cfg.Name, hx.HistString(hist), i+1, variant, err), durCase{cfg, hist})
+				return
+			}
+			y, err := hx.Open(mem, dir, cfg)
+			if err != nil {
+				c.Violation("checkpoint-does-not-open", fmt.Sprintf("cfg=%s hist=[%s] after op %d %s: %v", cfg.Name, hx.HistString(hist), i+1, variant, err), durCase{cfg, hist})
+				return
+			}
+			st, rerr := observe(y.D)
+			pts, _ := hx.ObservePoints(y.D, universe)
+			cerr := y.D.CheckLevels(nil)
+			y.D.Close()
+			c.Eval(1)
+			if rerr != nil || cerr != nil {
+				c.Violation("checkpoint-read-error", fmt.Sprintf("cfg=%s hist=[%s] after op %d %s: %v %v", cfg.Name, hx.HistString(hist), i+1, variant, rerr, cerr), durCase{cfg, hist})
+				return
+			}
+			c.State(vlib.Hash(variant, st))
+			desc := fmt.Sprintf("cfg=%s hist=[%s]: checkpoint (%s) taken after op %d opens to {%s}", cfg.Name, hx.HistString(hist), variant, i+1, st)
+			ok := false
+			switch variant {
+			case "default":
+				for p := lastSynced; p <= i+1; p++ {
+					ok = ok || prefix[p] == st
+				}
+				if !ok {
+					if s, hole := crashx.NewOracle(hist, bounds).IngestHoleExplains(st, crashx.Point{Hi: i + 1}); hole {
+						c.Violation("ingest-hole", fmt.Sprintf("%s = ops %v: an ingested table is in the checkpoint while an earlier key-disjoint unsynced write is not", desc, s), durCase{cfg, hist})
+						continue
+					}
+					c.Violation("checkpoint-not-a-prefix", fmt.Sprintf("%s, not the state after any prefix p with %d<=p<=%d (%q)", desc, lastSynced, i+1, prefix), durCase{cfg, hist})
+					return
+				}
+			case "flushed-wal":
+				if st != prefix[i+1] {
+					c.Violation("checkpoint-incomplete", fmt.Sprintf("%s, the source has {%s}", desc, prefix[i+1]), durCase{cfg, hist})
+					return
+				}
+			case "restricted-flushed-wal":
+				got := hx.PointsString(filterAB(pts))
+				if want := restrict(models[i+1]); got != want {
+					c.Violation("restricted-checkpoint-differs", fmt.Sprintf("%s; inside [a,b) it has {%s}, the source has {%s}", desc, got, want), durCase{cfg, hist})
+					return
+				}
+			case "restricted":
+				got := hx.PointsString(filterAB(pts))
+				for p := lastSynced; p <= i+1; p++ {
+					ok = ok || restrict(models[p]) == got
+				}
+				if !ok {
+					// the ingest-hole finding can also surface here; classify it the same way
+					hole := false
+					o := crashx.NewOracle(hist, bounds)
+					o.Subseqs("", crashx.Point{Hi: 0}, func([]int) bool { return false })
+					for p := 0; p <= i+1 && !hole; p++ {
+						hole = restrict(models[p]) == got
+					}
+					if hole {
+						c.Outcome("restricted-older-prefix")
+						continue
+					}
+					c.Violation("restricted-checkpoint-not-a-prefix", fmt.Sprintf("%s; inside [a,b) it has {%s}", desc, got), durCase{cfg, hist})
+					return
+				}
+			}
+			c.Outcome("ok-" + variant)
+		}
+		if lastSynced > 0 && lastSynced < i+1 {
+			c.Nontrivial(vlib.Hash(cfg.Name, hx.HistString(hist[:i+1])))
+		}
+	}
+}
+
+func filterAB(pts []hx.KV) []hx.KV {
+	var out []hx.KV
+	for _, e := range pts {
+		if hx.Cmp(e.K, "a") >= 0 && hx.Cmp(e.K, "b") < 0 {
+			out = append(out, e)
+		}
+	}
+	return out
+}
+
+func checkCheckpoint(c *vlib.Ctx) {
+	type plan struct {
+		cfg hx.Config
+		k   int
+		d   int
+	}
+	plans := []plan{{hx.Config{Name: "base"}, 10, 3}, {hx.Config{Name: "tinymem", MemTableSize: 16 << 10}, 10, 2}}
+	if c.Thorough() {
+		plans = []plan{{hx.Config{Name: "base"}, 10, 4}, {hx.Config{Name: "tinymem", MemTableSize: 16 << 10}, 10, 3}, {hx.Config{Name: "valsep", ValSep: true}, 10, 3}}
+	}
+	for _, p := range plans {
+		n := vlib.SeqCount(p.k, p.d, p.d)
+		done, complete := c.Each(n, func(i int) {
+			seq := vlib.SeqDecode(i, p.k, p.d, p.d)
+			hist := make([]hx.Op, len(seq))
+			for j, s := range seq {
+				hist[j] = alphaDur[s]
+			}
+			runCheckpoint(c, p.cfg, hist, false)
+			if i%499 == 0 {
+				c.Sample(map[string]any{"cfg": p.cfg.Name, "hist": hx.HistString(hist)})
+			}
+		})
+		if !complete {
+			c.Incomplete(fmt.Sprintf("budget expired in cfg %s after %d of %d histories", p.cfg.Name, done, n))
+			return
+		}
+	}
+}
+
 func TestCheck(t *testing.T) {
 	vlib.Main(t, "C24", func(c *vlib.Ctx) {
 		if c.ReplayPath() != "" {
@@ -492,6 +660,10 @@ func TestCheck(t *testing.T) {
 				var cs durCase
 				c.LoadReplay(&cs)
 				runDurable(c, cs.Cfg, cs.Hist, true)
+			case "C38":
+				var cs durCase
+				c.LoadReplay(&cs)
+				runCheckpoint(c, cs.Cfg, cs.Hist, true)
 			}
 			return
 		}
@@ -502,6 +674,8 @@ func TestCheck(t *testing.T) {
 			checkRatchet(c)
 		case "C13":
 			checkDurable(c)
+		case "C38":
+			checkCheckpoint(c)
 		}
 	})
 }
